@@ -112,6 +112,38 @@ theorem skip_lt (c : Cur) (k : Str) (hk : k ≠ []) (hsw : c.startsWith k = true
   have h3 := ne_nil_length hk
   omega
 
+/-- the tail of `parse_compound` only raises or finishes at/after the cursor it is given -/
+theorem finishCompound_good (F : EFormat) (c : Cur) (ck : ConnK) (ts : List Term) (c3 : Cur) (h3 : c3.n + 1 ≤ c.n)
+    (bound fuel : Nat) : Good c (F.finishCompound ck ts c3) true bound fuel := by
+  have fin_good : ∀ (t : Term), Good c (PRes.ok (t, F.skipAfterSpaces c3 F.compR)) true bound fuel := by
+    intro t
+    refine ⟨by simp, ?_, by simp⟩
+    intro a c' h
+    simp only [PRes.ok.injEq, Prod.mk.injEq] at h
+    have := skipAfterSpaces_n F c3 F.compR
+    simp only [if_true, ← h.2]
+    omega
+  unfold finishCompound
+  cases ck with
+  | operatorUnsupported => exact good_raise _ _ _ _ _
+  | set k => exact fin_good _
+  | seq k => exact fin_good _
+  | img k =>
+    simp only
+    split
+    · exact fin_good _
+    · exact good_raise _ _ _ _ _
+  | neg =>
+    simp only
+    split
+    · exact fin_good _
+    · exact good_raise _ _ _ _ _
+  | diff k =>
+    simp only
+    split
+    · exact fin_good _
+    · exact good_raise _ _ _ _ _
+
 mutual
   theorem parseTerm_good (F : EFormat) (hs : Sane F) : ∀ (fuel : Nat) (c : Cur),
       Good c (F.parseTerm fuel c) true (3 * c.n + 2) fuel
@@ -228,21 +260,9 @@ mutual
         have hc2 : ((F.skipAndSpaces c F.compL).skip kw).n ≤ (F.skipAndSpaces c F.compL).n := by
           rw [skip_n]; omega
         have ih := parseTerms_good F hs fuel F.compR ((F.skipAndSpaces c F.compL).skip kw) []
-        -- everything after the component loop only raises or finishes with a cursor not to the right
-        have fin_good : ∀ (t : Term) (c3 : Cur), c3.n ≤ ((F.skipAndSpaces c F.compL).skip kw).n →
-            Good c (PRes.ok (t, F.skipAfterSpaces c3 F.compR)) true (3 * c.n + 1) (fuel + 1) := by
-          intro t c3 h3
-          refine ⟨by simp, ?_, by simp⟩
-          intro a c' h
-          simp only [PRes.ok.injEq, Prod.mk.injEq] at h
-          have := skipAfterSpaces_n F c3 F.compR
-          simp only [if_true, ← h.2]
-          omega
-        cases ck with
-        | operatorUnsupported => exact good_raise _ _ _ _ _
-        | set k =>
-          simp only
-          cases hr : F.parseTerms fuel F.compR ((F.skipAndSpaces c F.compL).skip kw) [] with
+        split
+        · exact good_raise _ _ _ _ _
+        · cases hr : F.parseTerms fuel F.compR ((F.skipAndSpaces c F.compL).skip kw) [] with
           | ok p =>
             obtain ⟨ts, c3⟩ := p
             have h3 := ih.2.1 ts c3 hr
@@ -250,69 +270,7 @@ mutual
             simp only
             split
             · exact good_raise _ _ _ _ _
-            · exact fin_good _ c3 h3
-          | err h => simp [Good]
-          | panic => exact absurd hr ih.1
-          | fuel => simp only; exact ⟨by simp, by simp, fun hb => absurd hr (ih.2.2 (by omega))⟩
-        | seq k =>
-          simp only
-          cases hr : F.parseTerms fuel F.compR ((F.skipAndSpaces c F.compL).skip kw) [] with
-          | ok p =>
-            obtain ⟨ts, c3⟩ := p
-            have h3 := ih.2.1 ts c3 hr
-            simp only [Bool.false_eq_true, if_false] at h3
-            simp only
-            split
-            · exact good_raise _ _ _ _ _
-            · exact fin_good _ c3 h3
-          | err h => simp [Good]
-          | panic => exact absurd hr ih.1
-          | fuel => simp only; exact ⟨by simp, by simp, fun hb => absurd hr (ih.2.2 (by omega))⟩
-        | img k =>
-          simp only
-          cases hr : F.parseTerms fuel F.compR ((F.skipAndSpaces c F.compL).skip kw) [] with
-          | ok p =>
-            obtain ⟨ts, c3⟩ := p
-            have h3 := ih.2.1 ts c3 hr
-            simp only [Bool.false_eq_true, if_false] at h3
-            simp only
-            split
-            · exact good_raise _ _ _ _ _
-            · split
-              · exact fin_good _ c3 h3
-              · exact good_raise _ _ _ _ _
-          | err h => simp [Good]
-          | panic => exact absurd hr ih.1
-          | fuel => simp only; exact ⟨by simp, by simp, fun hb => absurd hr (ih.2.2 (by omega))⟩
-        | neg =>
-          simp only
-          cases hr : F.parseTerms fuel F.compR ((F.skipAndSpaces c F.compL).skip kw) [] with
-          | ok p =>
-            obtain ⟨ts, c3⟩ := p
-            have h3 := ih.2.1 ts c3 hr
-            simp only [Bool.false_eq_true, if_false] at h3
-            simp only
-            split
-            · exact good_raise _ _ _ _ _
-            · split
-              · exact fin_good _ c3 h3
-              · exact good_raise _ _ _ _ _
-          | err h => simp [Good]
-          | panic => exact absurd hr ih.1
-          | fuel => simp only; exact ⟨by simp, by simp, fun hb => absurd hr (ih.2.2 (by omega))⟩
-        | diff k =>
-          simp only
-          cases hr : F.parseTerms fuel F.compR ((F.skipAndSpaces c F.compL).skip kw) [] with
-          | ok p =>
-            obtain ⟨ts, c3⟩ := p
-            have h3 := ih.2.1 ts c3 hr
-            simp only [Bool.false_eq_true, if_false] at h3
-            simp only
-            split
-            · exact good_raise _ _ _ _ _
-            · split
-              · exact fin_good _ c3 h3
-              · exact good_raise _ _ _ _ _
+            · exact finishCompound_good F c ck ts c3 (by omega) _ _
           | err h => simp [Good]
           | panic => exact absurd hr ih.1
           | fuel => simp only; exact ⟨by simp, by simp, fun hb => absurd hr (ih.2.2 (by omega))⟩
